@@ -133,7 +133,7 @@ func swarm(g *Gen, p *Plan, pCancel, pStore float64) *Plan {
 	if g.p(pCancel) {
 		for i := range p.Ops {
 			op := &p.Ops[i]
-			if op.Kind == OpReq && op.Tag == "" && g.p(0.1) {
+			if op.Kind == OpReq && (op.Tag == "" || op.Tag == "batch") && g.p(0.1) {
 				op.Cancellable = true
 			}
 		}
